@@ -26,6 +26,7 @@ EXPLANATION = (
     ' Round 6: (17) shift_line: after an existing padding segment was folded into the amount every result is built from the line without that segment.'
     ' Round 7: (19) = C11.16 (character stepping consults within_double_byte() before answering for non-UTF-8 bytes) and (20) = C14.5 (emit calls every handler) are part of this check too.'
     " Round 8: (21) PAIR: a layout segment's declared columns are measured over its own offsets (C03.13)."
+    ' (22) KIND: text typed into a bytes Edit is encoded with the target encoding, no fixed codec in edit.py besides the documented ascii conversion (fix 640ffad).'
 )
 NOT_DECIDED = "Equality with the reference editor: row moves, preferred-column arithmetic, clip-mode view shift, click-to-offset mapping, leading-zero trimming arithmetic of IntEdit/NumEdit."
 ASSUMPTIONS = []
@@ -305,6 +306,29 @@ def rule_same_text(ctx: Ctx) -> RuleResult:
     return rr
 
 
+def rule_typed_text_encoding(ctx: Ctx) -> RuleResult:
+    """A bytes Edit holds text in the *target* encoding (that is what str_util's byte mode steps and measures by).  A
+    character typed into it is therefore encoded with util.get_encoding(): a literal codec name in edit.py's
+    .encode() calls is right only for 'ascii' (the documented implicit conversion of _normalize_to_caption).  Before
+    fix 640ffad keypress() used .encode('utf-8'): under euc-jp a typed kanji went in as three UTF-8 bytes and 'left'
+    stopped inside them (two of the bytes were taken for one double-byte character)."""
+    p = ctx.p
+    rr = RuleResult("KIND", "C10.22", "text typed into a bytes Edit is encoded with the target encoding, not with a fixed codec", floor=2)
+    for fi in p.functions.values():
+        if fi.module.name != "urwid.widget.edit" or fi.is_lambda:
+            continue
+        for c in fi.own_nodes():
+            if not (isinstance(c, ast.Call) and isinstance(c.func, ast.Attribute) and c.func.attr in ("encode", "decode") and c.args):
+                continue
+            a = c.args[0]
+            lit = a.value if isinstance(a, ast.Constant) and isinstance(a.value, str) else None
+            ok = lit is None or lit.lower() == "ascii"
+            rr.inst(f"{short(fi)}: {norm(c, 40)}", True, {"site": f"{short(fi)}: {norm(c, 50)}", "codec": lit or ast.unparse(a)})
+            if not ok:
+                rr.add(finding("KIND", fi, c, f"`{norm(c, 50)}` converts edit text with the fixed codec {lit!r}: byte text in an Edit is in the target encoding (set_encoding), so under any other encoding the bytes inserted are not characters of that encoding - cursor movement and widths treat them as something else", construct=f"{fi.name}: fixed codec {lit} for edit text"))
+    return rr
+
+
 def _segment_width(ctx: Ctx):
     """a click, 'end' and up/down with a preferred column are mapped to an offset through the columns each layout
     segment declares (calc_line_pos): a segment that declares fewer columns than its text occupies sends the cursor to
@@ -487,12 +511,14 @@ def run(ctx: Ctx):
         accum.run_accum(p, "C10.9", "C10", floor=3),
         offstep.run_offstep(p, "C10.10", ["urwid.text_layout.calc_line_pos", "urwid.text_layout.calc_pos", "urwid.text_layout.calc_coords"], floor=0),
         _segment_width(ctx),
+        rule_typed_text_encoding(ctx),
     ]
 
 
 _F = "urwid/widget/edit.py"
 _N = "urwid/numedit.py"
 MUTANTS = [
+    Mut("bytes-edit-inserts-utf8", "urwid/widget/edit.py", "Edit.keypress", "key = key.encode(get_encoding(), \"replace\")", "key = key.encode(\"utf-8\")", "KIND|widget.edit.Edit.keypress|keypress: fixed codec utf-8 for edit text"),
     Mut("shift-line-keeps-cancelled-padding", "urwid/text_layout.py", "shift_line", "        if amount:\n            return [(amount, None)] + segs[1:]\n        return segs[1:]\n", "        if amount:\n            segs = segs[1:]\n", "PASS|text_layout.shift_line|folded padding segment kept in the result"),
     Mut("twin-shift-line-tail-variable", "urwid/text_layout.py", "shift_line", "        if amount:\n            return [(amount, None)] + segs[1:]\n        return segs[1:]\n", "        rest = segs[1:]\n        if amount:\n            return [(amount, None), *rest]\n        return rest\n", twin=True),
     Mut("line-pos-closed-segment-end", "urwid/text_layout.py", "calc_line_pos", "if current_sc <= pref_col < current_sc + s.sc:", "if current_sc <= pref_col <= current_sc + s.sc:", "POSBOUND|text_layout.calc_line_pos"),
